@@ -625,6 +625,12 @@ map_op(const char * op, size_t a, int refuse)
 			break;
 		case 5:
 			i = map_next + (int64_t)(a % 5);	/* never issued */
+			if ((a / 8) % 3 == 1 && min >= 0) {
+				/* never issued, but congruent to a live number modulo 2^32 (or 2^31): no narrowing may confuse the two */
+				static const int64_t mods[] = { 4294967296LL, 8589934592LL, 2147483648LL, 281474976710656LL };
+
+				i = ((a / 24) % 2 ? min : (int64_t)((a / 48) % (uint64_t)map_next)) + mods[(a / 96) % 4];
+			}
 			R->cnt[N_MAP_UNKNOWN]++;
 			break;
 		case 6:
